@@ -309,7 +309,7 @@ class Ctx:
             if k.get("status", "open") == "open" and k["key"] == replay.get("finding_key"):
                 self.known_hits[k["key"]] = k["what"]
                 return
-        if len(self.violations) >= 40:
+        if sum(1 for v in self.violations if (v["kind"] == "correspondence") == (kind == "correspondence")) >= 40:
             self.suppressed += 1
             return
         self.violations.append({"kind": kind, "detail": detail, "replay": replay})
